@@ -79,6 +79,11 @@ class Feeder:
             raise StopIteration
         rows = self.call["chunks"][k]
         fr = gen.pixels_frame(rows)
+        idt = self.call.get("id_dtype", "int64")
+        if idt != "int64" and all(r[0] >= 0 and r[1] >= 0 for r in rows):
+            # the ID columns as a user may well have them: unsigned or narrow integers (whenever the IDs of the chunk fit)
+            fr["bin1_id"] = fr["bin1_id"].astype(idt)
+            fr["bin2_id"] = fr["bin2_id"].astype(idt)
         return fr if k % 2 == 0 else {c: fr[c].values for c in fr.columns}
 
 
@@ -201,6 +206,8 @@ def cr_producer(case, ctx):
         # (coarsening may fold a lower-triangle pixel into a valid coarse pixel, so the coarsener always gets a bin beyond the
         #  table; one valid pixel makes room: the pixel table is sized for the possible pixels)
         bad = [1, 0, 1] if symm and case["producer"] == "merge" else [0, n, 1]
+        if case["producer"] == "merge" and fault.get("what") == "neg":
+            bad = [-1, 0, 1]                                   # a negative bin ID: it sorts before the first row
         rows = sorted([p for p in case["px"][1:] if p[:2] != bad[:2]] + [bad])
         cooler.create_cooler(src, bins, gen.pixels_frame(rows), ordered=True, symmetric_upper=symm,
                              boundscheck=False, triucheck=False, dupcheck=False)
